@@ -1,5 +1,5 @@
 From CubedV Require Import Model.Util Model.AsyncMap.
-From Coq Require Import Permutation.
+From Coq Require Export Permutation.
 
 Definition repaired (c : cfg) : Prop := fix_starts c = true /\ fix_super c = true.
 Definition batch_ok (c : cfg) : Prop := batch c <> Some 0.
@@ -259,8 +259,8 @@ Qed.
 Ltac prj := cbn [next tasks pending backups starts ends superseded cancelled completed
                  batches yielded submitted stat set_stat] in *.
 
-Definition live (s : st) (todo : list (fid * bool)) (f : fid) : Prop :=
-  In f (pending s) \/ In f (map fst todo).
+Definition live (p : list fid) (todo : list (fid * bool)) (f : fid) : Prop :=
+  In f p \/ In f (map fst todo).
 
 Definition genuine (s : st) (t : fid) : Prop :=
   exists i, lookup t (tasks s) = Some i /\ lookup t (completed s) = Some false /\
@@ -310,24 +310,23 @@ Record Struct (s : st) (todo : list (fid * bool)) : Prop := {
      (In (y, (i, false)) (submitted s) /\ In (x, (i, true)) (submitted s));
   B_nsup : forall x y, lookup x (backups s) = Some y -> ~ In y (superseded s);
   B_live : forall x y, lookup x (backups s) = Some y ->
-     live s todo y \/ lookup y (completed s) = Some false;
-  P1 : forall t, live s todo t -> ~ In t (superseded s) -> lookup t (backups s) = None ->
+     live (pending s) todo y \/ lookup y (completed s) = Some false;
+  P1 : forall t, live (pending s) todo t -> ~ In t (superseded s) -> lookup t (backups s) = None ->
      exists i, In (t, (i, false)) (submitted s) /\ forall f, ~ In (f, (i, true)) (submitted s);
-  P3 : forall t i, live s todo t -> ~ In t (superseded s) -> lookup t (tasks s) = Some i ->
+  P3 : forall t i, live (pending s) todo t -> ~ In t (superseded s) -> lookup t (tasks s) = Some i ->
      ~ In i (map snd (yielded s));
   P4 : forall t b i, In (t, (i, false)) (submitted s) -> In (b, (i, true)) (submitted s) ->
      lookup t (backups s) = Some b \/
-     ((~ live s todo t \/ In t (superseded s)) /\ (~ live s todo b \/ In b (superseded s)));
+     ((~ live (pending s) todo t \/ In t (superseded s)) /\ (~ live (pending s) todo b \/ In b (superseded s)));
   P5 : forall t i, In (t, (i, false)) (submitted s) ->
-     In i (map snd (yielded s)) \/ (live s todo t /\ ~ In t (superseded s)) \/
-     (exists b, lookup t (backups s) = Some b /\ live s todo b);
+     In i (map snd (yielded s)) \/ (live (pending s) todo t /\ ~ In t (superseded s)) \/
+     (exists b, lookup t (backups s) = Some b /\ live (pending s) todo b);
   Bt_ne : forall l, In l (batches s) -> l <> [];
   Bt_nodup : NoDup (concat (batches s));
   Bt_fresh : forall i, In i (concat (batches s)) ->
      In i ins /\ forall f b, ~ In (f, (i, b)) (submitted s);
   Bt_cover : forall i, In i ins ->
      In i (concat (batches s)) \/ exists t, In (t, (i, false)) (submitted s);
-  Bt_none : batch c = None -> batches s = [];
 }.
 
 Definition Inv (s : st) (todo : list (fid * bool)) : Prop :=
@@ -379,3 +378,1387 @@ Proof.
   intros s f HS H. apply (C_lt _ HS). destruct (lookup f (completed s)) eqn:E; [|congruence].
   eapply lookup_Some_In_fst; eauto.
 Qed.
+
+Lemma live_cons : forall s t ok rest f, live (pending s) ((t, ok) :: rest) f <-> f = t \/ live (pending s) rest f.
+Proof. unfold live; cbn; intros; split; intros; intuition auto. Qed.
+
+Lemma live_weaken : forall s t ok rest f, live (pending s) rest f -> live (pending s) ((t, ok) :: rest) f.
+Proof. intros. apply live_cons. auto. Qed.
+
+(* the head of the todo list leaves without any state change *)
+Lemma struct_drop : forall s t ok rest, Safe s -> Struct s ((t, ok) :: rest) ->
+  (In t (superseded s) \/
+   (ok = false /\ exists b, lookup t (backups s) = Some b /\ live (pending s) rest b)) ->
+  Struct s rest.
+Proof.
+  intros s t ok rest HS H Hc.
+  assert (Hnd' : NoDup (t :: map fst rest)) by (apply (T_nodup _ _ H)).
+  inversion Hnd' as [|? ? Hnt Hndr]; subst.
+  constructor.
+  - exact Hndr.
+  - intros t' ok' Hin. apply (T_comp _ _ H). right. exact Hin.
+  - intros t' Hin. apply (T_pend _ _ H). right. exact Hin.
+  - apply (R_pend _ _ H).
+  - apply (R_starts _ _ H).
+  - apply (R_ends _ _ H).
+  - apply (R_super _ _ H).
+  - apply (R_bk _ _ H).
+  - apply (R_comp _ _ H).
+  - apply (Sup_pend _ _ H).
+  - apply (Can_sup _ _ H).
+  - apply (B_off _ _ H).
+  - apply (B_sym _ _ H).
+  - apply (B_irr _ _ H).
+  - apply (B_twin _ _ H).
+  - apply (B_nsup _ _ H).
+  - intros x y Hxy. destruct (B_live _ _ H x y Hxy) as [Hl|Hl]; [|auto].
+    apply live_cons in Hl. destruct Hl as [Hl|Hl]; [subst y|auto].
+    destruct Hc as [Hc|[Hok _]].
+    + exfalso. eapply (B_nsup _ _ H); eauto.
+    + subst ok. right. apply (T_comp _ _ H). left. reflexivity.
+  - intros t' Hl. apply (P1 _ _ H). eapply live_weaken; eauto.
+  - intros t' i Hl. apply (P3 _ _ H). eapply live_weaken; eauto.
+  - intros t' b i H1 H2. destruct (P4 _ _ H t' b i H1 H2) as [Ho|[Hc1 Hc2]]; [auto|].
+    right. split.
+    + destruct Hc1 as [Hc1|Hc1]; auto. left. intros Hl. apply Hc1. eapply live_weaken; eauto.
+    + destruct Hc2 as [Hc2|Hc2]; auto. left. intros Hl. apply Hc2. eapply live_weaken; eauto.
+  - intros t' i Hsub.
+    destruct (P5 _ _ H t' i Hsub) as [Hy|[[Hl Hns]|[b [Hb1 Hb2]]]]; [auto| |].
+    + apply live_cons in Hl. destruct Hl as [Hl|Hl]; [subst t'|auto].
+      destruct Hc as [Hc|[Hok [b [Hb1 Hb2]]]]; [tauto|].
+      right. right. exists b. auto.
+    + apply live_cons in Hb2. destruct Hb2 as [Hb2|Hb2]; [subst b|eauto].
+      (* the live twin was t itself *)
+      destruct Hc as [Hc|[Hok [b [Hb3 Hb4]]]].
+      * exfalso. eapply (B_nsup _ _ H); eauto.
+      * pose proof (B_sym _ _ H _ _ Hb1) as Hs. rewrite Hs in Hb3. inversion Hb3; subst b.
+        right. left. split; [exact Hb4|]. eapply (B_nsup _ _ H); eauto.
+  - apply (Bt_ne _ _ H).
+  - apply (Bt_nodup _ _ H).
+  - apply (Bt_fresh _ _ H).
+  - apply (Bt_cover _ _ H).
+Qed.
+
+Lemma safe_set_stat : forall s x, Safe s -> x <> Crashed ->
+  (forall t, x = Raised t -> genuine s t) ->
+  (x = Done -> forall i, In i ins -> In i (map snd (yielded s))) ->
+  Safe (set_stat s x).
+Proof.
+  intros s x HS Hx Hr Hd. destruct HS. constructor; prj; auto.
+Qed.
+
+Lemma bk_other : forall s todo t b x y, Struct s todo ->
+  lookup t (backups s) = Some b -> lookup x (backups s) = Some y ->
+  x <> t -> x <> b -> y <> t /\ y <> b.
+Proof.
+  intros s todo t b x y H Htb Hxy Hxt Hxb. split; intros E; subst y.
+  - apply (B_sym _ _ H) in Hxy. congruence.
+  - apply (B_sym _ _ H) in Hxy. apply (B_sym _ _ H) in Htb. congruence.
+Qed.
+
+(* the two members of a backups entry are exactly the submissions of their input *)
+Lemma twin_inputs : forall s todo t b i, Safe s -> Struct s todo ->
+  lookup t (backups s) = Some b -> lookup t (tasks s) = Some i ->
+  lookup b (tasks s) = Some i /\
+  forall f r, In (f, (i, r)) (submitted s) -> f = t \/ f = b.
+Proof.
+  intros s todo t b i HS H Htb Hti.
+  destruct (B_twin _ _ H _ _ Htb) as [i0 [[H1 H2]|[H1 H2]]].
+  - assert (i0 = i) by (apply (S_task _ HS) in H1; congruence). subst i0.
+    split; [eapply S_task; eauto|].
+    intros f [|] Hf; [right|left]; eapply sub_same; eauto.
+  - assert (i0 = i) by (apply (S_task _ HS) in H2; congruence). subst i0.
+    split; [eapply S_task; eauto|].
+    intros f [|] Hf; [left|right]; eapply sub_same; eauto.
+Qed.
+
+Lemma not_live_head : forall s t ok rest, Struct s ((t, ok) :: rest) -> ~ live (pending s) rest t.
+Proof.
+  intros s t ok rest H [Hl|Hl].
+  - eapply (T_pend _ _ H); eauto. left. reflexivity.
+  - pose proof (T_nodup _ _ H) as Hn. cbn in Hn. inversion Hn; auto.
+Qed.
+
+Definition s_yield (s : st) (t : fid) (i : input) : st :=
+  {| next := next s; tasks := tasks s; pending := pending s; backups := backups s;
+     starts := starts s; ends := t :: ends s; superseded := superseded s;
+     cancelled := cancelled s; completed := completed s; batches := batches s;
+     yielded := (t, i) :: yielded s; submitted := submitted s; stat := stat s |}.
+
+Lemma safe_yield : forall s t i rest, Safe s -> stat s = Running ->
+  Struct s ((t, true) :: rest) -> ~ In t (superseded s) -> lookup t (tasks s) = Some i ->
+  Safe (s_yield s t i).
+Proof.
+  intros s t i rest HS Hrun H Hns Hti.
+  assert (Hl : live (pending s) ((t, true) :: rest) t) by (apply live_cons; auto).
+  destruct HS. constructor; unfold s_yield; prj; auto.
+  - constructor; auto. eapply (P3 _ _ H); eauto.
+  - intros t' i' [Hin|Hin]; [|auto]. inversion Hin; subst. split; auto.
+    apply (T_comp _ _ H). left. reflexivity.
+  - intros t' Hr. congruence.
+Qed.
+
+Lemma struct_yield : forall s t i rest, Safe s -> Struct s ((t, true) :: rest) ->
+  ~ In t (superseded s) -> lookup t (tasks s) = Some i -> lookup t (backups s) = None ->
+  Struct (s_yield s t i) rest.
+Proof.
+  intros s t i rest HS H Hns Hti Hnb.
+  assert (Hnd' : NoDup (t :: map fst rest)) by (apply (T_nodup _ _ H)).
+  inversion Hnd' as [|? ? Hnt Hndr]; subst.
+  assert (Hlt : live (pending s) ((t, true) :: rest) t) by (apply live_cons; auto).
+  pose proof (not_live_head _ _ _ _ H) as Hnl.
+  assert (Hny : forall x, lookup x (backups s) = Some t -> False).
+  { intros x Hx. apply (B_sym _ _ H) in Hx. congruence. }
+  constructor; unfold s_yield; prj.
+  - exact Hndr.
+  - intros t' ok' Hin. apply (T_comp _ _ H). right. exact Hin.
+  - intros t' Hin. apply (T_pend _ _ H). right. exact Hin.
+  - apply (R_pend _ _ H).
+  - apply (R_starts _ _ H).
+  - intros f [Hf|Hf]; [subst f; eapply task_lt; eauto|apply (R_ends _ _ H); auto].
+  - apply (R_super _ _ H).
+  - apply (R_bk _ _ H).
+  - apply (R_comp _ _ H).
+  - apply (Sup_pend _ _ H).
+  - apply (Can_sup _ _ H).
+  - apply (B_off _ _ H).
+  - apply (B_sym _ _ H).
+  - apply (B_irr _ _ H).
+  - apply (B_twin _ _ H).
+  - apply (B_nsup _ _ H).
+  - intros x y Hxy. destruct (B_live _ _ H x y Hxy) as [Hl|Hl]; [|auto].
+    apply live_cons in Hl. destruct Hl as [Hl|Hl]; [subst y; exfalso; eauto|auto].
+  - intros t' Hl. apply (P1 _ _ H). eapply live_weaken; eauto.
+  - intros t' i' Hl Hns' Hti' [Hi|Hi].
+    + cbn in Hi. subst i'.
+      destruct (P1 _ _ H t Hlt Hns Hnb) as [i0 [Hs1 Hs2]].
+      assert (i0 = i) by (apply (S_task _ HS) in Hs1; congruence). subst i0.
+      destruct (S_task' _ HS _ _ Hti') as [[|] Hs3]; [eapply Hs2; eauto|].
+      assert (t' = t) by (eapply sub_same; eauto). subst t'. auto.
+    + revert Hi. eapply (P3 _ _ H t' i'); eauto. eapply live_weaken; eauto.
+  - intros t' b i' H1 H2. destruct (P4 _ _ H t' b i' H1 H2) as [Ho|[Hc1 Hc2]]; [auto|].
+    right. split.
+    + destruct Hc1 as [Hc1|Hc1]; auto. left. intros Hl. apply Hc1. eapply live_weaken; eauto.
+    + destruct Hc2 as [Hc2|Hc2]; auto. left. intros Hl. apply Hc2. eapply live_weaken; eauto.
+  - intros t' i' Hsub.
+    destruct (P5 _ _ H t' i' Hsub) as [Hy|[[Hl Hns']|[b [Hb1 Hb2]]]].
+    + left. right. exact Hy.
+    + apply live_cons in Hl. destruct Hl as [Hl|Hl]; [subst t'|auto].
+      left. left. cbn. apply (S_task _ HS) in Hsub. congruence.
+    + apply live_cons in Hb2. destruct Hb2 as [Hb2|Hb2]; [subst b; exfalso; eauto|eauto].
+  - apply (Bt_ne _ _ H).
+  - apply (Bt_nodup _ _ H).
+  - apply (Bt_fresh _ _ H).
+  - apply (Bt_cover _ _ H).
+Qed.
+
+Definition s_close (s : st) (t : fid) (i : input) (b : fid) : st :=
+  {| next := next s; tasks := tasks s; pending := remove_nat b (pending s);
+     backups := remove_key b (remove_key t (backups s));
+     starts := starts s; ends := t :: ends s; superseded := b :: superseded s;
+     cancelled := if is_done s b then cancelled s else b :: cancelled s;
+     completed := completed s; batches := batches s;
+     yielded := (t, i) :: yielded s; submitted := submitted s; stat := stat s |}.
+
+Lemma safe_close : forall s t i b rest, Safe s -> stat s = Running ->
+  Struct s ((t, true) :: rest) -> ~ In t (superseded s) -> lookup t (tasks s) = Some i ->
+  Safe (s_close s t i b).
+Proof.
+  intros s t i b rest HS Hrun H Hns Hti.
+  assert (Hl : live (pending s) ((t, true) :: rest) t) by (apply live_cons; auto).
+  destruct HS. constructor; unfold s_close; prj; auto.
+  - constructor; auto. eapply (P3 _ _ H); eauto.
+  - intros t' i' [Hin|Hin]; [|auto]. inversion Hin; subst. split; auto.
+    apply (T_comp _ _ H). left. reflexivity.
+  - intros t' Hr. congruence.
+Qed.
+
+Lemma lookup_close : forall (l : list (fid * fid)) t b x y,
+  lookup x (remove_key b (remove_key t l)) = Some y ->
+  x <> t /\ x <> b /\ lookup x l = Some y.
+Proof.
+  intros l t b x y. rewrite !lookup_remove_key.
+  destruct (Nat.eqb x b) eqn:E1; [discriminate|].
+  destruct (Nat.eqb x t) eqn:E2; [discriminate|].
+  apply Nat.eqb_neq in E1. apply Nat.eqb_neq in E2. auto.
+Qed.
+
+Lemma lookup_close' : forall (l : list (fid * fid)) t b x,
+  x <> t -> x <> b -> lookup x (remove_key b (remove_key t l)) = lookup x l.
+Proof.
+  intros l t b x H1 H2. rewrite !lookup_remove_key.
+  apply Nat.eqb_neq in H1. apply Nat.eqb_neq in H2. rewrite H1, H2. reflexivity.
+Qed.
+
+Lemma live_remove : forall p b todo f, live (remove_nat b p) todo f -> live p todo f.
+Proof. unfold live. intros p b todo f [H|H]; auto. apply In_remove_nat in H. tauto. Qed.
+
+Lemma live_remove' : forall p b todo f, f <> b -> live p todo f -> live (remove_nat b p) todo f.
+Proof. unfold live. intros p b todo f Hne [H|H]; auto. left. apply In_remove_nat. auto. Qed.
+
+Lemma struct_close : forall s t i b rest, Safe s -> Struct s ((t, true) :: rest) ->
+  ~ In t (superseded s) -> lookup t (tasks s) = Some i -> lookup t (backups s) = Some b ->
+  Struct (s_close s t i b) rest.
+Proof.
+  intros s t i b rest HS H Hns Hti Htb.
+  assert (Hnd' : NoDup (t :: map fst rest)) by (apply (T_nodup _ _ H)).
+  inversion Hnd' as [|? ? Hnt Hndr]; subst.
+  pose proof (not_live_head _ _ _ _ H) as Hnl.
+  pose proof (B_sym _ _ H _ _ Htb) as Hbt.
+  pose proof (B_irr _ _ H _ _ Htb) as Hne.
+  destruct (twin_inputs _ _ _ _ _ HS H Htb Hti) as [Hbi Htw].
+  assert (Hw : forall f, live (remove_nat b (pending s)) rest f ->
+               live (pending s) ((t, true) :: rest) f).
+  { intros f Hf. eapply live_weaken. eapply live_remove; eauto. }
+  assert (Hnl' : ~ live (remove_nat b (pending s)) rest t).
+  { intros Hf. apply Hnl. eapply live_remove; eauto. }
+  constructor; unfold s_close; prj.
+  - exact Hndr.
+  - intros t' ok' Hin. apply (T_comp _ _ H). right. exact Hin.
+  - intros t' Hin Hp. apply In_remove_nat in Hp. eapply (T_pend _ _ H); [right|]; eauto. tauto.
+  - intros f Hf. apply In_remove_nat in Hf. apply (R_pend _ _ H). tauto.
+  - apply (R_starts _ _ H).
+  - intros f [Hf|Hf]; [subst f; eapply task_lt; eauto|apply (R_ends _ _ H); auto].
+  - intros f [Hf|Hf]; [subst f; eapply (R_bk _ _ H); eauto|apply (R_super _ _ H); auto].
+  - intros x y Hxy. apply lookup_close in Hxy. apply (R_bk _ _ H). tauto.
+  - intros f Hf Hp. apply In_remove_nat in Hp. eapply (R_comp _ _ H); eauto. tauto.
+  - intros f [Hf|Hf] Hp; apply In_remove_nat in Hp; [subst; tauto|].
+    eapply (Sup_pend _ _ H); eauto. tauto.
+  - intros f Hf. destruct (is_done s b).
+    + right. apply (Can_sup _ _ H). exact Hf.
+    + destruct Hf as [Hf|Hf]; [left; exact Hf|right; apply (Can_sup _ _ H); exact Hf].
+  - intros Hoff. rewrite (B_off _ _ H Hoff) in Htb. discriminate.
+  - intros x y Hxy. apply lookup_close in Hxy. destruct Hxy as [Hx1 [Hx2 Hxy]].
+    destruct (bk_other _ _ _ _ _ _ H Htb Hxy Hx1 Hx2) as [Hy1 Hy2].
+    rewrite lookup_close'; auto. apply (B_sym _ _ H). exact Hxy.
+  - intros x y Hxy. apply lookup_close in Hxy. apply (B_irr _ _ H). tauto.
+  - intros x y Hxy. apply lookup_close in Hxy. apply (B_twin _ _ H). tauto.
+  - intros x y Hxy. apply lookup_close in Hxy. destruct Hxy as [Hx1 [Hx2 Hxy]].
+    destruct (bk_other _ _ _ _ _ _ H Htb Hxy Hx1 Hx2) as [Hy1 Hy2].
+    intros [Hs|Hs]; [congruence|]. eapply (B_nsup _ _ H); eauto.
+  - intros x y Hxy. apply lookup_close in Hxy. destruct Hxy as [Hx1 [Hx2 Hxy]].
+    destruct (bk_other _ _ _ _ _ _ H Htb Hxy Hx1 Hx2) as [Hy1 Hy2].
+    destruct (B_live _ _ H x y Hxy) as [Hl|Hl]; [|auto].
+    apply live_cons in Hl. destruct Hl as [Hl|Hl]; [congruence|].
+    left. apply live_remove'; auto.
+  - intros t' Hl Hns' Hlk.
+    assert (t' <> b) by (intros E; apply Hns'; left; auto).
+    assert (t' <> t) by (intros E; subst t'; auto).
+    assert (Hns0 : ~ In t' (superseded s)) by (intros E; apply Hns'; right; auto).
+    rewrite lookup_close' in Hlk by auto.
+    apply (P1 _ _ H); auto.
+  - intros t' i' Hl Hns' Hti' Hi.
+    assert (t' <> b) by (intros E; apply Hns'; left; auto).
+    assert (t' <> t) by (intros E; subst t'; auto).
+    assert (Hns0 : ~ In t' (superseded s)) by (intros E; apply Hns'; right; auto).
+    destruct Hi as [Hi|Hi].
+    + cbn in Hi. subst i'. destruct (S_task' _ HS _ _ Hti') as [r Hr].
+      destruct (Htw _ _ Hr); congruence.
+    + revert Hi. eapply (P3 _ _ H t' i'); eauto.
+  - intros t' b' i' H1 H2. destruct (P4 _ _ H t' b' i' H1 H2) as [Ho|[Hc1 Hc2]].
+    + destruct (Nat.eq_dec t' t) as [E1|E1]; [|destruct (Nat.eq_dec t' b) as [E2|E2]].
+      * subst t'. assert (b' = b) by congruence. subst b'.
+        right. split; [left; exact Hnl'|right; left; reflexivity].
+      * subst t'. assert (b' = t) by congruence. subst b'.
+        right. split; [right; left; reflexivity|left; exact Hnl'].
+      * left. rewrite lookup_close'; auto.
+    + right. split.
+      * destruct Hc1 as [Hc1|Hc1]; [left; intros Hl; apply Hc1; auto|right; right; auto].
+      * destruct Hc2 as [Hc2|Hc2]; [left; intros Hl; apply Hc2; auto|right; right; auto].
+  - intros t' i' Hsub.
+    destruct (Nat.eq_dec t' t) as [E1|E1]; [|destruct (Nat.eq_dec t' b) as [E2|E2]].
+    + subst t'. left. left. cbn. apply (S_task _ HS) in Hsub. congruence.
+    + subst t'. left. left. cbn. apply (S_task _ HS) in Hsub. congruence.
+    + destruct (P5 _ _ H t' i' Hsub) as [Hy|[[Hl Hns']|[b0 [Hb1 Hb2]]]].
+      * left. right. exact Hy.
+      * apply live_cons in Hl. destruct Hl as [Hl|Hl]; [congruence|].
+        right. left. split; [apply live_remove'; auto|].
+        intros [Hs|Hs]; [congruence|auto].
+      * destruct (bk_other _ _ _ _ _ _ H Htb Hb1 E1 E2) as [Hy1 Hy2].
+        right. right. exists b0. split; [rewrite lookup_close'; auto|].
+        apply live_cons in Hb2. destruct Hb2 as [Hb2|Hb2]; [congruence|].
+        apply live_remove'; auto.
+  - apply (Bt_ne _ _ H).
+  - apply (Bt_nodup _ _ H).
+  - apply (Bt_fresh _ _ H).
+  - apply (Bt_cover _ _ H).
+Qed.
+
+Lemma on_success_eq : forall s t i, fix_super c = true -> lookup t (tasks s) = Some i ->
+  on_success c s t =
+  if use_backups c then
+    match lookup t (backups s) with None => s_yield s t i | Some b => s_close s t i b end
+  else s_yield s t i.
+Proof.
+  intros s t i Hf Hti. unfold on_success. rewrite Hti. prj. rewrite Hf.
+  destruct (use_backups c); [|reflexivity].
+  destruct (lookup t (backups s)); reflexivity.
+Qed.
+
+Lemma todo_task : forall s t ok rest, Safe s -> Struct s ((t, ok) :: rest) ->
+  exists i, lookup t (tasks s) = Some i.
+Proof.
+  intros s t ok rest HS H. apply lt_task; auto. apply comp_lookup_lt; auto.
+  rewrite (T_comp _ _ H t ok) by (left; reflexivity). discriminate.
+Qed.
+
+Lemma fail_wait : forall s t rest b, Safe s -> Struct s ((t, false) :: rest) ->
+  lookup t (backups s) = Some b -> lookup b (completed s) <> Some false -> Struct s rest.
+Proof.
+  intros s t rest b HS H Htb Hc. eapply struct_drop; eauto.
+  right. split; [reflexivity|]. exists b. split; [exact Htb|].
+  destruct (B_live _ _ H _ _ Htb) as [Hl|Hl]; [|congruence].
+  apply live_cons in Hl. destruct Hl as [Hl|Hl]; [|exact Hl].
+  exfalso. eapply (B_irr _ _ H); eauto.
+Qed.
+
+Lemma genuine_twin : forall s t rest b, Safe s -> Struct s ((t, false) :: rest) ->
+  lookup t (backups s) = Some b -> lookup b (completed s) = Some false -> genuine s t.
+Proof.
+  intros s t rest b HS H Htb Hc.
+  destruct (todo_task _ _ _ _ HS H) as [i Hti].
+  destruct (twin_inputs _ _ _ _ _ HS H Htb Hti) as [Hbi Htw].
+  assert (Htc : lookup t (completed s) = Some false) by (apply (T_comp _ _ H); left; reflexivity).
+  exists i. split; [exact Hti|]. split; [exact Htc|].
+  intros f r Hf. destruct (Htw _ _ Hf); subst; auto.
+Qed.
+
+Lemma genuine_single : forall s t rest, Safe s -> Struct s ((t, false) :: rest) ->
+  ~ In t (superseded s) -> lookup t (backups s) = None -> genuine s t.
+Proof.
+  intros s t rest HS H Hns Hnb.
+  assert (Hl : live (pending s) ((t, false) :: rest) t) by (apply live_cons; auto).
+  destruct (P1 _ _ H t Hl Hns Hnb) as [i [Hs1 Hs2]].
+  assert (Htc : lookup t (completed s) = Some false) by (apply (T_comp _ _ H); left; reflexivity).
+  exists i. split; [eapply S_task; eauto|]. split; [exact Htc|].
+  intros f [|] Hf; [exfalso; eapply Hs2; eauto|].
+  assert (f = t) by (eapply sub_same; eauto). subst f. exact Htc.
+Qed.
+
+Lemma inv_frozen : forall s todo todo', stat s <> Running -> Inv s todo -> Inv s todo'.
+Proof. intros s todo todo' Hs [HS _]. split; [exact HS|]. intros; congruence. Qed.
+
+Lemma inv_raise : forall s t todo, Safe s -> genuine s t -> Inv (set_stat s (Raised t)) todo.
+Proof.
+  intros s t todo HS Hg. split.
+  - apply safe_set_stat; auto; try discriminate. intros t' E. inversion E; subst; auto.
+  - prj. discriminate.
+Qed.
+
+Lemma on_finished_inv : forall s t ok rest,
+  Inv s ((t, ok) :: rest) -> Inv (on_finished c s (t, ok)) rest.
+Proof.
+  intros s t ok rest HI. unfold on_finished.
+  destruct (stat s) eqn:Hst; try (eapply inv_frozen; eauto; congruence).
+  destruct HI as [HS HR]. specialize (HR Hst).
+  destruct Hrep as [_ Hfs]. rewrite Hfs. cbn [andb].
+  destruct (mem_nat t (superseded s)) eqn:Em.
+  { apply mem_nat_In in Em. split; [exact HS|]. intros _. eapply struct_drop; eauto. }
+  apply mem_nat_nIn in Em.
+  destruct ok.
+  - destruct (todo_task _ _ _ _ HS HR) as [i Hti].
+    rewrite (on_success_eq _ _ _ Hfs Hti).
+    destruct (use_backups c) eqn:Eub.
+    + destruct (lookup t (backups s)) as [b|] eqn:Eb.
+      * split; [eapply safe_close; eauto|]. intros _. eapply struct_close; eauto.
+      * split; [eapply safe_yield; eauto|]. intros _. eapply struct_yield; eauto.
+    + assert (Eb : lookup t (backups s) = None) by (rewrite (B_off _ _ HR Eub); reflexivity).
+      split; [eapply safe_yield; eauto|]. intros _. eapply struct_yield; eauto.
+  - destruct (lookup t (backups s)) as [b|] eqn:Eb.
+    + destruct (is_done s b) eqn:Ed; cbn [negb].
+      * destruct (mem_nat b (cancelled s)) eqn:Ec.
+        { apply mem_nat_In in Ec. exfalso. eapply (B_nsup _ _ HR); eauto.
+          apply (Can_sup _ _ HR). exact Ec. }
+        destruct (lookup b (completed s)) as [[|]|] eqn:Ecb.
+        -- split; [exact HS|]. intros _. eapply fail_wait; eauto. congruence.
+        -- eapply inv_raise; eauto. eapply genuine_twin; eauto.
+        -- split; [exact HS|]. intros _. eapply fail_wait; eauto. congruence.
+      * split; [exact HS|]. intros _. eapply fail_wait; eauto.
+        unfold is_done in Ed. destruct (lookup b (completed s)); congruence.
+    + eapply inv_raise; eauto. eapply genuine_single; eauto.
+Qed.
+
+Lemma fold_on_finished_inv : forall l s, Inv s l -> Inv (fold_left (on_finished c) l s) [].
+Proof.
+  induction l as [|[t ok] l IH]; cbn [fold_left]; intros s HI; [exact HI|].
+  apply IH. apply on_finished_inv. exact HI.
+Qed.
+
+Lemma nodup_app : forall A (l1 l2 : list A), NoDup l1 -> NoDup l2 ->
+  (forall x, In x l1 -> ~ In x l2) -> NoDup (l1 ++ l2).
+Proof.
+  induction l1 as [|a l1 IH]; cbn; intros l2 H1 H2 Hd; [exact H2|].
+  inversion H1; subst. constructor.
+  - intros Hin. apply in_app_or in Hin. destruct Hin as [Hin|Hin]; [auto|].
+    eapply Hd; eauto.
+  - apply IH; auto.
+Qed.
+
+(* the finished futures move from [pending] to the todo list *)
+Definition s_wake (s : st) (fin' : list (fid * bool)) : st :=
+  {| next := next s; tasks := tasks s;
+     pending := fold_left (fun p tb => remove_nat (fst tb) p) fin' (pending s);
+     backups := backups s; starts := starts s; ends := ends s;
+     superseded := superseded s; cancelled := cancelled s;
+     completed := fin' ++ completed s; batches := batches s; yielded := yielded s;
+     submitted := submitted s; stat := stat s |}.
+
+Section Wake.
+Variable s : st.
+Variable fin' : list (fid * bool).
+Hypothesis HS : Safe s.
+Hypothesis H : Struct s [].
+Hypothesis Hrun : stat s = Running.
+Hypothesis V1 : forall t ok, In (t, ok) fin' -> In t (pending s).
+Hypothesis V2 : NoDup (map fst fin').
+
+Lemma V1' : forall t, In t (map fst fin') -> In t (pending s).
+Proof. intros t Ht. apply in_map_iff in Ht. destruct Ht as [[t' ok] [E Ht]]. cbn in E. subst. eauto. Qed.
+
+Lemma live_wake : forall f, live (pending s) [] f <-> live (pending (s_wake s fin')) fin' f.
+Proof.
+  intros f. unfold live, s_wake; prj. rewrite fold_remove_In. cbn [map]. split.
+  - intros [Hf|[]]. destruct (in_dec Nat.eq_dec f (map fst fin')); auto.
+  - intros [[Hf _]|Hf]; [auto|]. left. apply V1'. exact Hf.
+Qed.
+
+Lemma lookup_wake_old : forall f, lookup f (completed s) <> None -> lookup f fin' = None.
+Proof.
+  intros f Hf. apply lookup_None. intros Hin. apply V1' in Hin.
+  eapply (R_comp _ _ H); eauto.
+Qed.
+
+Lemma lookup_wake : forall f v, lookup f (completed s) = Some v ->
+  lookup f (fin' ++ completed s) = Some v.
+Proof.
+  intros f v Hf. rewrite lookup_app, lookup_wake_old; [exact Hf|congruence].
+Qed.
+
+Lemma safe_wake : Safe (s_wake s fin').
+Proof.
+  destruct HS. constructor; unfold s_wake; prj; auto.
+  - rewrite map_app. apply nodup_app; auto.
+    intros x Hx Hc. apply V1' in Hx. eapply (R_comp _ _ H); eauto.
+    apply in_map_iff in Hc. destruct Hc as [[x' v] [E Hc]]. cbn in E. subst x'.
+    rewrite (In_lookup _ _ _ _ C_nodup0 Hc). discriminate.
+  - intros f Hf. rewrite map_app in Hf. apply in_app_or in Hf. destruct Hf as [Hf|Hf]; auto.
+    apply (R_pend _ _ H). apply V1'. exact Hf.
+  - intros t i Hy. destruct (Y_ok0 _ _ Hy) as [Hy1 Hy2]. split; auto. apply lookup_wake. exact Hy1.
+  - intros t Ht. congruence.
+Qed.
+
+Lemma struct_wake : Struct (s_wake s fin') fin'.
+Proof.
+  pose proof live_wake as Hlw.
+  constructor; unfold s_wake in *; prj.
+  - exact V2.
+  - intros t ok Hin. rewrite lookup_app. rewrite (In_lookup _ _ _ _ V2 Hin). reflexivity.
+  - intros t Hin Hp. apply fold_remove_In in Hp. tauto.
+  - intros f Hf. apply fold_remove_In in Hf. apply (R_pend _ _ H). tauto.
+  - apply (R_starts _ _ H).
+  - apply (R_ends _ _ H).
+  - apply (R_super _ _ H).
+  - apply (R_bk _ _ H).
+  - intros f Hf Hp. apply fold_remove_In in Hp. destruct Hp as [Hp1 Hp2].
+    rewrite lookup_app in Hf. destruct (lookup f fin') eqn:E.
+    + apply Hp2. eapply lookup_Some_In_fst; eauto.
+    + eapply (R_comp _ _ H); eauto.
+  - intros f Hf Hp. apply fold_remove_In in Hp. eapply (Sup_pend _ _ H); eauto. tauto.
+  - apply (Can_sup _ _ H).
+  - apply (B_off _ _ H).
+  - apply (B_sym _ _ H).
+  - apply (B_irr _ _ H).
+  - apply (B_twin _ _ H).
+  - apply (B_nsup _ _ H).
+  - intros x y Hxy. destruct (B_live _ _ H x y Hxy) as [Hl|Hl].
+    + left. apply Hlw. exact Hl.
+    + right. apply lookup_wake. exact Hl.
+  - intros t Hl. apply (P1 _ _ H). apply Hlw. exact Hl.
+  - intros t i Hl. apply (P3 _ _ H). apply Hlw. exact Hl.
+  - intros t b i H1 H2. destruct (P4 _ _ H t b i H1 H2) as [Ho|[Hc1 Hc2]]; [auto|].
+    right. split.
+    + destruct Hc1 as [Hc1|Hc1]; auto. left. intros Hl. apply Hc1. apply Hlw. exact Hl.
+    + destruct Hc2 as [Hc2|Hc2]; auto. left. intros Hl. apply Hc2. apply Hlw. exact Hl.
+  - intros t i Hsub.
+    destruct (P5 _ _ H t i Hsub) as [Hy|[[Hl Hns]|[b [Hb1 Hb2]]]]; [auto| |].
+    + right. left. split; auto. apply Hlw. exact Hl.
+    + right. right. exists b. split; auto. apply Hlw. exact Hb2.
+  - apply (Bt_ne _ _ H).
+  - apply (Bt_nodup _ _ H).
+  - apply (Bt_fresh _ _ H).
+  - apply (Bt_cover _ _ H).
+Qed.
+End Wake.
+
+(* ------------------------------------------------------------------ *)
+(* the backup loop                                                      *)
+(* ------------------------------------------------------------------ *)
+
+Definition s_launch (s : st) (t : fid) (i : input) : st :=
+  {| next := S (next s); tasks := (next s, i) :: tasks s; pending := next s :: pending s;
+     backups := (t, next s) :: (next s, t) :: backups s;
+     starts := next s :: starts s; ends := ends s; superseded := superseded s;
+     cancelled := cancelled s; completed := completed s; batches := batches s;
+     yielded := yielded s; submitted := (next s, (i, true)) :: submitted s; stat := stat s |}.
+
+Lemma launch_cases : forall (l : list (fid * fid)) t f x y,
+  lookup x ((t, f) :: (f, t) :: l) = Some y ->
+  (x = t /\ y = f) \/ (x = f /\ y = t) \/ (x <> t /\ x <> f /\ lookup x l = Some y).
+Proof.
+  intros l t f x y. cbn [lookup].
+  destruct (Nat.eqb x t) eqn:E1.
+  - apply Nat.eqb_eq in E1. intros E. inversion E. auto.
+  - apply Nat.eqb_neq in E1. destruct (Nat.eqb x f) eqn:E2.
+    + apply Nat.eqb_eq in E2. intros E. inversion E. auto.
+    + apply Nat.eqb_neq in E2. auto.
+Qed.
+
+Lemma launch_other : forall (l : list (fid * fid)) t f x,
+  x <> t -> x <> f -> lookup x ((t, f) :: (f, t) :: l) = lookup x l.
+Proof.
+  intros l t f x H1 H2. cbn [lookup].
+  apply Nat.eqb_neq in H1. apply Nat.eqb_neq in H2. rewrite H1, H2. reflexivity.
+Qed.
+
+Lemma lookup_cons_ne : forall B (l : list (nat * B)) k v x, x <> k -> lookup x ((k, v) :: l) = lookup x l.
+Proof. intros. cbn [lookup]. apply Nat.eqb_neq in H. rewrite H. reflexivity. Qed.
+
+Lemma lookup_cons_eq : forall B (l : list (nat * B)) k v, lookup k ((k, v) :: l) = Some v.
+Proof. intros. cbn [lookup]. rewrite Nat.eqb_refl. reflexivity. Qed.
+
+Lemma live_consp : forall p f x, live (f :: p) [] x <-> x = f \/ live p [] x.
+Proof. unfold live; cbn; intros; split; intros; intuition auto. Qed.
+
+Section Launch.
+Variable s : st.
+Variable t : fid.
+Variable i : input.
+Hypothesis HS : Safe s.
+Hypothesis H : Struct s [].
+Hypothesis Hrun : stat s = Running.
+Hypothesis Hub : use_backups c = true.
+Hypothesis Htp : In t (pending s).
+Hypothesis Htb : lookup t (backups s) = None.
+Hypothesis Hti : lookup t (tasks s) = Some i.
+
+Lemma L_ns : ~ In t (superseded s).
+Proof. intros E. eapply (Sup_pend _ _ H); eauto. Qed.
+
+Lemma L_live : live (pending s) [] t.
+Proof. left. exact Htp. Qed.
+
+Lemma L_lt : t < next s.
+Proof. apply (R_pend _ _ H). exact Htp. Qed.
+
+Lemma L_sub : In (t, (i, false)) (submitted s) /\ forall f, ~ In (f, (i, true)) (submitted s).
+Proof.
+  destruct (P1 _ _ H t L_live L_ns Htb) as [i0 [H1 H2]].
+  assert (i0 = i) by (apply (S_task _ HS) in H1; congruence). subst i0. auto.
+Qed.
+
+Lemma safe_launch : Safe (s_launch s t i).
+Proof.
+  destruct L_sub as [Hs1 Hs2]. pose proof L_lt as Hlt.
+  constructor; unfold s_launch; prj.
+  - cbn [map fst]. rewrite (S_fst _ HS). rewrite seq_S, rev_app_distr. reflexivity.
+  - cbn [map snd]. constructor; [|apply (S_snd _ HS)].
+    intros Hin. apply in_map_iff in Hin. destruct Hin as [[f [i' b]] [E Hin]]. cbn in E.
+    inversion E; subst. eapply Hs2; eauto.
+  - intros f i' b [E|Hin].
+    + inversion E; subst. apply lookup_cons_eq.
+    + rewrite lookup_cons_ne; [eapply S_task; eauto|].
+      apply (sub_lt _ _ _ HS) in Hin. lia.
+  - intros f i'. destruct (Nat.eq_dec f (next s)) as [E|E].
+    + subst f. rewrite lookup_cons_eq. intros E. inversion E; subst. exists true. left. reflexivity.
+    + rewrite lookup_cons_ne by auto. intros Hl. destruct (S_task' _ HS _ _ Hl) as [b Hb'].
+      exists b. right. exact Hb'.
+  - intros f i' b [E|Hin].
+    + inversion E; subst. eapply S_ins; eauto.
+    + eapply S_ins; eauto.
+  - intros f i' [E|Hin].
+    + inversion E; subst. exists t. right. exact Hs1.
+    + destruct (S_bk _ HS _ _ Hin) as [t' Ht']. exists t'. right. exact Ht'.
+  - apply (C_nodup _ HS).
+  - intros f Hf. apply (C_lt _ HS) in Hf. lia.
+  - apply (Y_nodup _ HS).
+  - intros t' i' Hy. destruct (Y_ok _ HS _ _ Hy) as [Hy1 Hy2]. split; auto.
+    rewrite lookup_cons_ne; auto. apply (task_lt _ _ _ HS) in Hy2. lia.
+  - rewrite Hrun. discriminate.
+  - intros t' E. congruence.
+  - intros E. congruence.
+Qed.
+
+Lemma struct_launch : Struct (s_launch s t i) [].
+Proof.
+  destruct L_sub as [Hs1 Hs2]. pose proof L_lt as Hlt. pose proof L_ns as Hns.
+  assert (Hfb : forall x y, lookup x (backups s) = Some y -> x <> next s /\ y <> next s /\ x <> t /\ y <> t).
+  { intros x y Hxy. destruct (R_bk _ _ H _ _ Hxy) as [Hx Hy].
+    repeat split; try lia; intros E; subst.
+    - congruence.
+    - apply (B_sym _ _ H) in Hxy. congruence. }
+  constructor; unfold s_launch; prj.
+  - constructor.
+  - intros t' ok [].
+  - intros t' [].
+  - intros f [E|Hf]; [lia|]. apply (R_pend _ _ H) in Hf. lia.
+  - intros f Hf. destruct (Nat.eq_dec f (next s)); [left; auto|right].
+    apply (R_starts _ _ H). lia.
+  - intros f Hf. apply (R_ends _ _ H) in Hf. lia.
+  - intros f Hf. apply (R_super _ _ H) in Hf. lia.
+  - intros x y Hxy. apply launch_cases in Hxy.
+    destruct Hxy as [[E1 E2]|[[E1 E2]|[E1 [E2 Hxy]]]]; subst; try lia.
+    apply (R_bk _ _ H) in Hxy. lia.
+  - intros f Hf [E|Hp].
+    + apply (comp_lookup_lt _ _ HS) in Hf. lia.
+    + eapply (R_comp _ _ H); eauto.
+  - intros f Hf [E|Hp].
+    + apply (R_super _ _ H) in Hf. lia.
+    + eapply (Sup_pend _ _ H); eauto.
+  - apply (Can_sup _ _ H).
+  - intros E. congruence.
+  - intros x y Hxy. apply launch_cases in Hxy.
+    destruct Hxy as [[E1 E2]|[[E1 E2]|[E1 [E2 Hxy]]]]; subst.
+    + rewrite lookup_cons_ne by lia. apply lookup_cons_eq.
+    + apply lookup_cons_eq.
+    + destruct (Hfb _ _ Hxy) as [_ [Hy1 [_ Hy2]]].
+      rewrite launch_other; auto. apply (B_sym _ _ H). exact Hxy.
+  - intros x y Hxy. apply launch_cases in Hxy.
+    destruct Hxy as [[E1 E2]|[[E1 E2]|[E1 [E2 Hxy]]]]; subst; try lia.
+    eapply (B_irr _ _ H); eauto.
+  - intros x y Hxy. apply launch_cases in Hxy.
+    destruct Hxy as [[E1 E2]|[[E1 E2]|[E1 [E2 Hxy]]]]; subst.
+    + exists i. left. split; [right; exact Hs1|left; reflexivity].
+    + exists i. right. split; [right; exact Hs1|left; reflexivity].
+    + destruct (B_twin _ _ H _ _ Hxy) as [i' [[H1 H2]|[H1 H2]]]; exists i'; [left|right];
+        split; right; assumption.
+  - intros x y Hxy. apply launch_cases in Hxy.
+    destruct Hxy as [[E1 E2]|[[E1 E2]|[E1 [E2 Hxy]]]]; subst.
+    + intros Hf. apply (R_super _ _ H) in Hf. lia.
+    + exact Hns.
+    + eapply (B_nsup _ _ H); eauto.
+  - intros x y Hxy. apply launch_cases in Hxy.
+    destruct Hxy as [[E1 E2]|[[E1 E2]|[E1 [E2 Hxy]]]]; subst.
+    + left. apply live_consp. left. reflexivity.
+    + left. apply live_consp. right. exact L_live.
+    + destruct (B_live _ _ H _ _ Hxy) as [Hl|Hl]; [|auto].
+      left. apply live_consp. right. exact Hl.
+  - intros t' Hl Hns' Hlk.
+    destruct (Nat.eq_dec t' t) as [E1|E1]; [subst; rewrite lookup_cons_eq in Hlk; discriminate|].
+    destruct (Nat.eq_dec t' (next s)) as [E2|E2].
+    { subst. rewrite lookup_cons_ne, lookup_cons_eq in Hlk by lia. discriminate. }
+    rewrite launch_other in Hlk by auto.
+    apply live_consp in Hl. destruct Hl as [Hl|Hl]; [congruence|].
+    destruct (P1 _ _ H t' Hl Hns' Hlk) as [i' [H1 H2]].
+    exists i'. split; [right; exact H1|].
+    intros f [E|Hf]; [|eapply H2; eauto].
+    inversion E; subst. apply E1. eapply sub_same; eauto.
+  - intros t' i' Hl Hns' Hti'.
+    destruct (Nat.eq_dec t' (next s)) as [E2|E2].
+    + subst. rewrite lookup_cons_eq in Hti'. inversion Hti'; subst.
+      eapply (P3 _ _ H t i'); eauto. exact L_live.
+    + rewrite lookup_cons_ne in Hti' by auto.
+      apply live_consp in Hl. destruct Hl as [Hl|Hl]; [congruence|].
+      eapply (P3 _ _ H t' i'); eauto.
+  - intros t' b' i' [E|H1]; [inversion E|]. intros [E|H2].
+    + inversion E; subst. assert (t' = t) by (eapply sub_same; eauto). subst t'.
+      left. apply lookup_cons_eq.
+    + assert (Ht' : t' <> next s) by (apply (sub_lt _ _ _ HS) in H1; lia).
+      assert (Hb' : b' <> next s) by (apply (sub_lt _ _ _ HS) in H2; lia).
+      destruct (P4 _ _ H t' b' i' H1 H2) as [Ho|[Hc1 Hc2]].
+      * left. destruct (Hfb _ _ Ho) as [? [? [? ?]]]. rewrite launch_other; auto.
+      * right. split.
+        -- destruct Hc1 as [Hc1|Hc1]; auto. left. intros Hl. apply live_consp in Hl. tauto.
+        -- destruct Hc2 as [Hc2|Hc2]; auto. left. intros Hl. apply live_consp in Hl. tauto.
+  - intros t' i' [E|Hsub]; [inversion E|].
+    destruct (P5 _ _ H t' i' Hsub) as [Hy|[[Hl Hns']|[b [Hb1 Hb2]]]]; [auto| |].
+    + right. left. split; auto. apply live_consp. auto.
+    + right. right. exists b. destruct (Hfb _ _ Hb1) as [? [? [? ?]]].
+      split; [rewrite launch_other; auto|apply live_consp; auto].
+  - apply (Bt_ne _ _ H).
+  - apply (Bt_nodup _ _ H).
+  - intros i' Hi'. destruct (Bt_fresh _ _ H i' Hi') as [H1 H2]. split; auto.
+    intros f b [E|Hf]; [|eapply H2; eauto].
+    inversion E; subst. eapply H2; eauto.
+  - intros i' Hi'. destruct (Bt_cover _ _ H i' Hi') as [H1|[t' H1]]; auto.
+    right. exists t'. right. exact H1.
+Qed.
+End Launch.
+
+Lemma launch_eq : forall s t i, lookup t (tasks s) = Some i -> launch_backup s t = s_launch s t i.
+Proof. intros s t i Hti. unfold launch_backup. rewrite Hti. reflexivity. Qed.
+
+Lemma policy_ok : forall s t, Struct s [] -> In t (pending s) -> policy_defined c s t = true.
+Proof.
+  intros s t H Ht. unfold policy_defined.
+  assert (E : forallb (fun e => mem_nat e (starts s)) (ends s) && mem_nat t (starts s) = true).
+  { apply Bool.andb_true_iff. split.
+    - apply forallb_forall. intros e He. apply mem_nat_In. apply (R_starts _ _ H).
+      apply (R_ends _ _ H). exact He.
+    - apply mem_nat_In. apply (R_starts _ _ H). apply (R_pend _ _ H). exact Ht. }
+  rewrite E. apply Bool.orb_true_r.
+Qed.
+
+Lemma on_exam_inv : forall pend0 s ta, use_backups c = true -> Inv s [] ->
+  (forall x, In x pend0 -> In x (pending s)) ->
+  Inv (on_exam c pend0 s ta) [] /\ (forall x, In x pend0 -> In x (pending (on_exam c pend0 s ta))).
+Proof.
+  intros pend0 s [t ans] Hub HI Hp. unfold on_exam.
+  destruct (stat s) eqn:Hst; auto.
+  destruct (mem_nat t pend0 && negb match lookup t (backups s) with Some _ => true | None => false end) eqn:E; auto.
+  apply Bool.andb_true_iff in E. destruct E as [E1 E2]. apply mem_nat_In in E1.
+  assert (Htb : lookup t (backups s) = None) by (destruct (lookup t (backups s)); [discriminate|reflexivity]).
+  destruct HI as [HS HR]. pose proof (HR Hst) as H.
+  rewrite (policy_ok _ _ H (Hp _ E1)).
+  destruct (ans && negb (policy_early c s)); [|split; [split|]; auto].
+  destruct (lt_task _ _ HS (R_pend _ _ H _ (Hp _ E1))) as [i Hti].
+  rewrite (launch_eq _ _ _ Hti). split; [split|].
+  - eapply safe_launch; eauto.
+  - intros _. eapply struct_launch; eauto.
+  - intros x Hx. unfold s_launch; prj. right. auto.
+Qed.
+
+Lemma fold_on_exam_inv : forall pend0 l s, use_backups c = true -> Inv s [] ->
+  (forall x, In x pend0 -> In x (pending s)) ->
+  Inv (fold_left (on_exam c pend0) l s) [].
+Proof.
+  induction l as [|ta l IH]; cbn [fold_left]; intros s Hub HI Hp; [exact HI|].
+  destruct (on_exam_inv pend0 s ta Hub HI Hp) as [HI' Hp'].
+  apply IH; auto.
+Qed.
+
+(* ------------------------------------------------------------------ *)
+(* batch refill                                                         *)
+(* ------------------------------------------------------------------ *)
+
+Definition subnew (new : list (fid * input)) : list (fid * (input * bool)) :=
+  map (fun fi => (fst fi, (snd fi, false))) (rev new).
+
+Lemma in_subnew : forall new f i b, In (f, (i, b)) (subnew new) <-> b = false /\ In (f, i) new.
+Proof.
+  intros new f i b. unfold subnew. rewrite in_map_iff. split.
+  - intros [[f' i'] [E Hin]]. cbn in E. inversion E; subst. split; auto. apply in_rev. exact Hin.
+  - intros [E Hin]. subst b. exists (f, i). split; auto. apply -> in_rev. exact Hin.
+Qed.
+
+Lemma subnew_fst : forall new, map fst (subnew new) = rev (map fst new).
+Proof. intros. unfold subnew. rewrite map_map. cbn. rewrite map_rev. reflexivity. Qed.
+
+Lemma subnew_snd : forall new, map snd (subnew new) = map (fun i => (i, false)) (rev (map snd new)).
+Proof. intros. unfold subnew. rewrite map_map. cbn. rewrite <- map_rev, map_map. reflexivity. Qed.
+
+Lemma nodup_tag : forall (l : list input), NoDup l -> NoDup (map (fun i => (i, false)) l).
+Proof.
+  induction l as [|a l IH]; cbn; intros Hn; [constructor|].
+  inversion Hn; subst. constructor; auto.
+  intros Hin. apply in_map_iff in Hin. destruct Hin as [x [E Hin]]. inversion E; subst. auto.
+Qed.
+
+Lemma nodup_app_l : forall A (l1 l2 : list A), NoDup (l1 ++ l2) -> NoDup l1.
+Proof.
+  induction l1 as [|a l1 IH]; cbn; intros l2 Hn; [constructor|].
+  inversion Hn; subst. constructor; eauto. intros Hin. apply H1. apply in_or_app. auto.
+Qed.
+
+Lemma nodup_app_r : forall A (l1 l2 : list A), NoDup (l1 ++ l2) -> NoDup l2.
+Proof.
+  induction l1 as [|a l1 IH]; cbn; intros l2 Hn; [exact Hn|].
+  inversion Hn; subst. eauto.
+Qed.
+
+Lemma nodup_app_disj : forall A (l1 l2 : list A) x, NoDup (l1 ++ l2) -> In x l1 -> In x l2 -> False.
+Proof.
+  induction l1 as [|a l1 IH]; cbn; intros l2 x Hn H1 H2; [auto|].
+  inversion Hn; subst. destruct H1 as [H1|H1].
+  - subst. apply H3. apply in_or_app. auto.
+  - eauto.
+Qed.
+
+Definition s_refill (s : st) (l : list input) (rest : list (list input)) : st :=
+  {| next := next s + length l; tasks := mk_futures (next s) l ++ tasks s;
+     pending := map fst (mk_futures (next s) l) ++ pending s; backups := backups s;
+     starts := map fst (mk_futures (next s) l) ++ starts s;
+     ends := ends s; superseded := superseded s; cancelled := cancelled s;
+     completed := completed s; batches := rest; yielded := yielded s;
+     submitted := subnew (mk_futures (next s) l) ++ submitted s;
+     stat := stat s |}.
+
+Lemma live_app : forall p q x, live (q ++ p) [] x <-> In x q \/ live p [] x.
+Proof.
+  unfold live; cbn; intros; rewrite in_app_iff; split; intros; intuition auto.
+Qed.
+
+Section Refill.
+Variable s : st.
+Variable l : list input.
+Variable rest : list (list input).
+Hypothesis HS : Safe s.
+Hypothesis H : Struct s [].
+Hypothesis Hrun : stat s = Running.
+Hypothesis Hbat : batches s = l :: rest.
+
+Local Notation new := (mk_futures (next s) l).
+
+Lemma RF_nodup : NoDup (l ++ concat rest).
+Proof. pose proof (Bt_nodup _ _ H) as Hn. rewrite Hbat in Hn. exact Hn. Qed.
+
+Lemma RF_fresh : forall i, In i l -> In i ins /\ forall f b, ~ In (f, (i, b)) (submitted s).
+Proof.
+  intros i Hi. apply (Bt_fresh _ _ H). rewrite Hbat. cbn. apply in_or_app. auto.
+Qed.
+
+Lemma RF_new : forall f i, In (f, i) new -> next s <= f < next s + length l /\ In i l.
+Proof. intros f i Hin. apply mk_futures_In. exact Hin. Qed.
+
+Lemma RF_key : forall f, In f (map fst new) <-> next s <= f < next s + length l.
+Proof. intros f. rewrite mk_futures_fst, in_seq. tauto. Qed.
+
+Lemma RF_old : forall f, f < next s -> lookup f new = None.
+Proof. intros f Hf. apply mk_futures_lookup_None. auto. Qed.
+
+Lemma safe_refill : Safe (s_refill s l rest).
+Proof.
+  pose proof RF_fresh as Hfr. pose proof RF_new as Hnew.
+  constructor; unfold s_refill; prj.
+  - rewrite map_app, subnew_fst, (S_fst _ HS). rewrite mk_futures_fst.
+    rewrite seq_app, rev_app_distr. reflexivity.
+  - rewrite map_app. apply nodup_app.
+    + rewrite subnew_snd. apply nodup_tag. apply NoDup_rev. rewrite mk_futures_snd.
+      eapply nodup_app_l. exact RF_nodup.
+    + apply (S_snd _ HS).
+    + intros [i b] H1 H2. rewrite subnew_snd in H1. apply in_map_iff in H1.
+      destruct H1 as [i' [E H1]]. inversion E; subst. apply in_rev in H1.
+      rewrite mk_futures_snd in H1.
+      apply in_map_iff in H2. destruct H2 as [[f [i2 b2]] [E2 H2]]. cbn in E2. inversion E2; subst.
+      eapply (proj2 (Hfr _ H1)); eauto.
+  - intros f i b Hin. apply in_app_or in Hin. rewrite lookup_app. destruct Hin as [Hin|Hin].
+    + apply in_subnew in Hin. destruct Hin as [_ Hin].
+      rewrite (In_lookup _ _ _ _ (mk_futures_nodup _ _) Hin). reflexivity.
+    + rewrite RF_old; [eapply S_task; eauto|eapply sub_lt; eauto].
+  - intros f i. rewrite lookup_app. destruct (lookup f new) eqn:E.
+    + intros E'. inversion E'; subst. exists false. apply in_or_app. left.
+      apply in_subnew. split; auto. apply lookup_In. exact E.
+    + intros Hl. destruct (S_task' _ HS _ _ Hl) as [b Hb']. exists b. apply in_or_app. auto.
+  - intros f i b Hin. apply in_app_or in Hin. destruct Hin as [Hin|Hin].
+    + apply in_subnew in Hin. destruct Hin as [_ Hin]. apply Hnew in Hin. apply Hfr. tauto.
+    + eapply S_ins; eauto.
+  - intros f i Hin. apply in_app_or in Hin. destruct Hin as [Hin|Hin].
+    + apply in_subnew in Hin. destruct Hin; discriminate.
+    + destruct (S_bk _ HS _ _ Hin) as [t Ht]. exists t. apply in_or_app. auto.
+  - apply (C_nodup _ HS).
+  - intros f Hf. apply (C_lt _ HS) in Hf. lia.
+  - apply (Y_nodup _ HS).
+  - intros t i Hy. destruct (Y_ok _ HS _ _ Hy) as [Hy1 Hy2]. split; auto.
+    rewrite lookup_app, RF_old; auto. eapply task_lt; eauto.
+  - rewrite Hrun. discriminate.
+  - intros t E. congruence.
+  - intros E. congruence.
+Qed.
+
+Lemma struct_refill : Struct (s_refill s l rest) [].
+Proof.
+  pose proof RF_fresh as Hfr. pose proof RF_new as Hnew. pose proof RF_key as Hkey.
+  assert (Hlw : forall x, live (pending s) [] x -> live (map fst new ++ pending s) [] x).
+  { intros x Hx. apply live_app. auto. }
+  assert (Hlo : forall x, x < next s -> live (map fst new ++ pending s) [] x -> live (pending s) [] x).
+  { intros x Hx Hl. apply live_app in Hl. destruct Hl as [Hl|Hl]; auto. apply Hkey in Hl. lia. }
+  constructor; unfold s_refill; prj.
+  - constructor.
+  - intros t' ok [].
+  - intros t' [].
+  - intros f Hf. apply in_app_or in Hf. destruct Hf as [Hf|Hf].
+    + apply Hkey in Hf. lia.
+    + apply (R_pend _ _ H) in Hf. lia.
+  - intros f Hf. apply in_or_app. destruct (Nat.lt_ge_cases f (next s)).
+    + right. apply (R_starts _ _ H). auto.
+    + left. apply Hkey. lia.
+  - intros f Hf. apply (R_ends _ _ H) in Hf. lia.
+  - intros f Hf. apply (R_super _ _ H) in Hf. lia.
+  - intros x y Hxy. apply (R_bk _ _ H) in Hxy. lia.
+  - intros f Hf Hp. apply in_app_or in Hp. destruct Hp as [Hp|Hp].
+    + apply Hkey in Hp. apply (comp_lookup_lt _ _ HS) in Hf. lia.
+    + eapply (R_comp _ _ H); eauto.
+  - intros f Hf Hp. apply in_app_or in Hp. destruct Hp as [Hp|Hp].
+    + apply Hkey in Hp. apply (R_super _ _ H) in Hf. lia.
+    + eapply (Sup_pend _ _ H); eauto.
+  - apply (Can_sup _ _ H).
+  - apply (B_off _ _ H).
+  - apply (B_sym _ _ H).
+  - apply (B_irr _ _ H).
+  - intros x y Hxy. destruct (B_twin _ _ H _ _ Hxy) as [i' [[H1 H2]|[H1 H2]]]; exists i'; [left|right];
+      split; apply in_or_app; right; assumption.
+  - apply (B_nsup _ _ H).
+  - intros x y Hxy. destruct (B_live _ _ H _ _ Hxy) as [Hl|Hl]; auto.
+  - intros t' Hl Hns' Hlk. apply live_app in Hl. destruct Hl as [Hl|Hl].
+    + apply in_map_iff in Hl. destruct Hl as [[t2 i] [E Hin]]. cbn in E. subst t2.
+      exists i. split; [apply in_or_app; left; apply in_subnew; auto|].
+      intros f Hf. apply in_app_or in Hf. destruct Hf as [Hf|Hf].
+      * apply in_subnew in Hf. destruct Hf; discriminate.
+      * apply Hnew in Hin. eapply (proj2 (Hfr _ (proj2 Hin))); eauto.
+    + destruct (P1 _ _ H t' Hl Hns' Hlk) as [i' [H1 H2]].
+      exists i'. split; [apply in_or_app; right; exact H1|].
+      intros f Hf. apply in_app_or in Hf. destruct Hf as [Hf|Hf]; [|eapply H2; eauto].
+      apply in_subnew in Hf. destruct Hf; discriminate.
+  - intros t' i' Hl Hns' Hti'. rewrite lookup_app in Hti'. destruct (lookup t' new) eqn:E.
+    + inversion Hti'; subst. apply lookup_In in E. apply Hnew in E. destruct E as [_ E].
+      intros Hy. apply in_map_iff in Hy. destruct Hy as [[t0 i0] [E0 Hy]]. cbn in E0. subst i0.
+      destruct (Y_ok _ HS _ _ Hy) as [_ Hy2]. destruct (S_task' _ HS _ _ Hy2) as [b Hb'].
+      eapply (proj2 (Hfr _ E)); eauto.
+    + apply (P3 _ _ H t' i'); auto. apply Hlo; auto. eapply task_lt; eauto.
+  - intros t' b' i' H1 H2. apply in_app_or in H1. apply in_app_or in H2.
+    destruct H2 as [H2|H2]; [apply in_subnew in H2; destruct H2; discriminate|].
+    destruct H1 as [H1|H1].
+    + apply in_subnew in H1. destruct H1 as [_ H1]. apply Hnew in H1.
+      exfalso. eapply (proj2 (Hfr _ (proj2 H1))); eauto.
+    + destruct (P4 _ _ H t' b' i' H1 H2) as [Ho|[Hc1 Hc2]]; [auto|].
+      right. split.
+      * destruct Hc1 as [Hc1|Hc1]; auto. left. intros Hl. apply Hc1. apply Hlo; auto.
+        eapply sub_lt; eauto.
+      * destruct Hc2 as [Hc2|Hc2]; auto. left. intros Hl. apply Hc2. apply Hlo; auto.
+        eapply sub_lt; eauto.
+  - intros t' i' Hsub. apply in_app_or in Hsub. destruct Hsub as [Hsub|Hsub].
+    + apply in_subnew in Hsub. destruct Hsub as [_ Hsub]. right. left. split.
+      * apply live_app. left. apply in_map_iff. exists (t', i'). auto.
+      * intros Hs. apply (R_super _ _ H) in Hs. apply Hnew in Hsub. lia.
+    + destruct (P5 _ _ H t' i' Hsub) as [Hy|[[Hl Hns']|[b [Hb1 Hb2]]]]; [auto| |].
+      * right. left. auto.
+      * right. right. exists b. auto.
+  - intros l0 Hl0. apply (Bt_ne _ _ H). rewrite Hbat. right. exact Hl0.
+  - eapply nodup_app_r. exact RF_nodup.
+  - intros i Hi. assert (Hi' : In i (concat (batches s))).
+    { rewrite Hbat. cbn. apply in_or_app. auto. }
+    destruct (Bt_fresh _ _ H i Hi') as [H1 H2]. split; auto.
+    intros f b Hf. apply in_app_or in Hf. destruct Hf as [Hf|Hf]; [|eapply H2; eauto].
+    apply in_subnew in Hf. destruct Hf as [_ Hf]. apply Hnew in Hf.
+    eapply nodup_app_disj; [exact RF_nodup| |exact Hi]. tauto.
+  - intros i Hi. destruct (Bt_cover _ _ H i Hi) as [H1|[t' H1]].
+    + rewrite Hbat in H1. cbn in H1. apply in_app_or in H1. destruct H1 as [H1|H1]; auto.
+      right. destruct (mk_futures_In_snd l (next s) i H1) as [f Hf].
+      exists f. apply in_or_app. left. apply in_subnew. auto.
+    + right. exists t'. apply in_or_app. auto.
+Qed.
+End Refill.
+
+(* ------------------------------------------------------------------ *)
+(* frame lemmas: [completed] and [batches]                              *)
+(* ------------------------------------------------------------------ *)
+
+Ltac dm := repeat match goal with
+  | |- context [match ?x with _ => _ end] => destruct x
+  end; try reflexivity.
+
+Lemma frame_on_finished : forall s tb,
+  completed (on_finished c s tb) = completed s /\ batches (on_finished c s tb) = batches s.
+Proof. intros s tb. unfold on_finished, on_success. dm; auto. Qed.
+
+Lemma frame_fold_on_finished : forall l s,
+  completed (fold_left (on_finished c) l s) = completed s /\
+  batches (fold_left (on_finished c) l s) = batches s.
+Proof.
+  induction l as [|tb l IH]; cbn [fold_left]; intros s; [auto|].
+  destruct (IH (on_finished c s tb)) as [H1 H2]. destruct (frame_on_finished s tb) as [H3 H4].
+  split; congruence.
+Qed.
+
+Lemma frame_on_exam : forall p s ta,
+  completed (on_exam c p s ta) = completed s /\ batches (on_exam c p s ta) = batches s.
+Proof. intros p s ta. unfold on_exam, launch_backup. dm; auto. Qed.
+
+Lemma frame_fold_on_exam : forall p l s,
+  completed (fold_left (on_exam c p) l s) = completed s /\
+  batches (fold_left (on_exam c p) l s) = batches s.
+Proof.
+  induction l as [|ta l IH]; cbn [fold_left]; intros s; [auto|].
+  destruct (IH (on_exam c p s ta)) as [H1 H2]. destruct (frame_on_exam p s ta) as [H3 H4].
+  split; congruence.
+Qed.
+
+Lemma frame_refill : forall s, completed (refill c s) = completed s /\
+  (batch c = None -> batches (refill c s) = batches s).
+Proof.
+  intros s. unfold refill. split.
+  - dm.
+  - intros E. rewrite E. dm.
+Qed.
+
+Lemma frame_finish : forall s, completed (finish s) = completed s /\ batches (finish s) = batches s.
+Proof. intros s. unfold finish. dm; auto. Qed.
+
+Lemma frame_step : forall s w, stat s = Running ->
+  completed (step c s w) = valid_fin (pending s) [] (fin w) ++ completed s /\
+  (batch c = None -> batches (step c s w) = batches s).
+Proof.
+  intros s w Hrun. unfold step. rewrite Hrun.
+  match goal with |- context [finish (refill c ?x)] => set (s2 := x) end.
+  destruct (frame_finish (refill c s2)) as [F1 F2]. destruct (frame_refill s2) as [F3 F4].
+  assert (F5 : completed s2 = valid_fin (pending s) [] (fin w) ++ completed s /\ batches s2 = batches s).
+  { subst s2. destruct (use_backups c).
+    - match goal with |- context [fold_left (on_exam c ?p) ?l ?x] =>
+        destruct (frame_fold_on_exam p l x) as [G1 G2] end.
+      match goal with |- context [fold_left (on_finished c) ?l ?x] =>
+        destruct (frame_fold_on_finished l x) as [G3 G4] end.
+      prj. split; congruence.
+    - match goal with |- context [fold_left (on_finished c) ?l ?x] =>
+        destruct (frame_fold_on_finished l x) as [G3 G4] end.
+      prj. split; congruence. }
+  destruct F5 as [F5 F6]. split; [congruence|]. intros E. rewrite F2, F4; auto.
+Qed.
+
+(* ------------------------------------------------------------------ *)
+(* refill, finish, step                                                 *)
+(* ------------------------------------------------------------------ *)
+
+Lemma refill_inv : forall s, Inv s [] -> Inv (refill c s) [].
+Proof.
+  intros s HI. unfold refill.
+  destruct (stat s) eqn:Hst; auto.
+  destruct (batch c) as [b|]; auto.
+  destruct (length (pending s) <? b); auto.
+  destruct (batches s) as [|l rest] eqn:Hbat; auto.
+  destruct HI as [HS HR]. pose proof (HR Hst) as H.
+  destruct Hrep as [Hfst _]. rewrite Hfst. rewrite <- Hst.
+  split.
+  - exact (safe_refill s l rest HS H Hst Hbat).
+  - intros _. exact (struct_refill s l rest HS H Hbat).
+Qed.
+
+Lemma refill_pending : forall s, Inv s [] -> (batch c = None -> batches s = []) ->
+  stat (refill c s) = Running -> pending (refill c s) = [] -> batches (refill c s) = [].
+Proof.
+  intros s [HS HR] Hnone. unfold refill.
+  destruct (stat s) eqn:Hst; try (intros; congruence).
+  specialize (HR eq_refl).
+  destruct (batch c) as [b|] eqn:Eb; [|auto].
+  destruct (length (pending s) <? b) eqn:El.
+  - destruct (batches s) as [|l rest] eqn:Hbat; [auto|]. prj. intros _ Hp.
+    apply app_eq_nil in Hp. destruct Hp as [Hp _].
+    rewrite mk_futures_fst in Hp.
+    assert (l <> []) by (apply (Bt_ne _ _ HR); rewrite Hbat; left; reflexivity).
+    destruct l; [congruence|]. cbn in Hp. discriminate.
+  - intros _ Hp. rewrite Hp in El. cbn [length] in El. apply Nat.ltb_ge in El.
+    exfalso. apply Hb. rewrite Eb. f_equal. lia.
+Qed.
+
+Lemma finish_inv : forall s, Inv s [] ->
+  (stat s = Running -> pending s = [] -> batches s = []) ->
+  Inv (finish s) [] /\ (stat (finish s) = Running -> pending (finish s) <> []).
+Proof.
+  intros s HI Hbt. unfold finish.
+  destruct (stat s) eqn:Hst; try (split; [exact HI|intros; congruence]).
+  destruct (pending s) as [|p ps] eqn:Hp.
+  - split; [|prj; discriminate]. destruct HI as [HS HR]. specialize (HR Hst).
+    split; [|prj; discriminate].
+    apply safe_set_stat; auto; try discriminate.
+    intros _ i Hi. destruct (Bt_cover _ _ HR i Hi) as [H1|[t H1]].
+    + rewrite Hbt in H1 by auto. destruct H1.
+    + destruct (P5 _ _ HR t i H1) as [Hy|[[[Hl|[]] _]|[b [_ [Hl|[]]]]]]; auto;
+        rewrite Hp in Hl; destruct Hl.
+  - split; [exact HI|]. intros _. rewrite Hp. discriminate.
+Qed.
+
+Lemma status_dec : forall s, stat s = Running \/ stat s <> Running.
+Proof. intros s. destruct (stat s); auto; right; discriminate. Qed.
+
+Definition Top (s : st) : Prop :=
+  Inv s [] /\ (stat s = Running -> pending s <> []) /\ (batch c = None -> batches s = []).
+
+Definition step_s1 (s : st) (w : wake) : st :=
+  fold_left (on_finished c) (valid_fin (pending s) [] (fin w))
+    (s_wake s (valid_fin (pending s) [] (fin w))).
+Definition step_s2 (s : st) (w : wake) : st :=
+  if use_backups c then fold_left (on_exam c (pending (step_s1 s w))) (exam w) (step_s1 s w)
+  else step_s1 s w.
+
+Lemma step_eq : forall s w, stat s = Running -> step c s w = finish (refill c (step_s2 s w)).
+Proof.
+  intros s w Hrun. unfold step. destruct (stat s) eqn:E; try discriminate.
+  unfold step_s2, step_s1, s_wake. rewrite E. reflexivity.
+Qed.
+
+Lemma step_frozen : forall s w, stat s <> Running -> step c s w = s.
+Proof. intros s w Hs. unfold step. destruct (stat s); congruence. Qed.
+
+Lemma step_top : forall s w, Top s -> Top (step c s w).
+Proof.
+  intros s w [HI [Hpn Hnone]].
+  destruct (status_dec s) as [Hst|Hst]; [|rewrite step_frozen by auto; split; auto].
+  assert (Hn' : batch c = None -> batches (step c s w) = []).
+  { intros E. rewrite (proj2 (frame_step s w Hst) E). auto. }
+  rewrite step_eq in * by auto.
+  set (fin' := valid_fin (pending s) [] (fin w)).
+  destruct HI as [HS HR]. specialize (HR Hst).
+  assert (V1 : forall t ok, In (t, ok) fin' -> In t (pending s)).
+  { intros t ok Hin. apply valid_fin_In in Hin. tauto. }
+  assert (V2 : NoDup (map fst fin')) by apply valid_fin_nodup.
+  assert (I0 : Inv (s_wake s fin') fin').
+  { split; [apply safe_wake; auto|intros _; apply struct_wake; auto]. }
+  apply fold_on_finished_inv in I0. fold (step_s1 s w) in I0.
+  assert (I2 : Inv (step_s2 s w) []).
+  { unfold step_s2. destruct (use_backups c) eqn:Eub; [|exact I0].
+    apply fold_on_exam_inv; auto. }
+  assert (N2 : batch c = None -> batches (step_s2 s w) = []).
+  { intros E. unfold step_s2. destruct (use_backups c).
+    - rewrite (proj2 (frame_fold_on_exam _ _ _)). unfold step_s1.
+      rewrite (proj2 (frame_fold_on_finished _ _)). unfold s_wake; prj. auto.
+    - unfold step_s1. rewrite (proj2 (frame_fold_on_finished _ _)). unfold s_wake; prj. auto. }
+  pose proof (refill_inv _ I2) as I3.
+  pose proof (refill_pending _ I2 N2) as P3'.
+  destruct (finish_inv _ I3 P3') as [I4 P4'].
+  split; [exact I4|]. split; [exact P4'|exact Hn'].
+Qed.
+
+(* ------------------------------------------------------------------ *)
+(* init                                                                 *)
+(* ------------------------------------------------------------------ *)
+
+Definition s_empty (bs : list (list input)) : st :=
+  {| next := 0; tasks := []; pending := []; backups := []; starts := []; ends := [];
+     superseded := []; cancelled := []; completed := []; batches := bs; yielded := [];
+     submitted := []; stat := Running |}.
+
+Lemma safe_empty : forall bs, Safe (s_empty bs).
+Proof.
+  intros bs. constructor; unfold s_empty; prj; cbn; try (intros; tauto); try constructor;
+    try discriminate.
+Qed.
+
+Lemma struct_empty : forall bs, (forall l, In l bs -> l <> []) -> concat bs = ins ->
+  Struct (s_empty bs) [].
+Proof.
+  intros bs Hne Hc.
+  constructor; unfold s_empty; prj; cbn [lookup In map].
+  - constructor.
+  - intros t ok [].
+  - intros t [].
+  - intros f [].
+  - intros f Hf. lia.
+  - intros f [].
+  - intros f [].
+  - intros; discriminate.
+  - intros f Hf Hp. exact Hp.
+  - intros f [].
+  - intros f [].
+  - reflexivity.
+  - intros; discriminate.
+  - intros; discriminate.
+  - intros; discriminate.
+  - intros; discriminate.
+  - intros; discriminate.
+  - intros t [[]|[]].
+  - intros t i [[]|[]].
+  - intros t b i [].
+  - intros t i [].
+  - exact Hne.
+  - rewrite Hc. exact Hnd.
+  - rewrite Hc. intros i Hi. split; auto.
+  - rewrite Hc. auto.
+Qed.
+
+Definition s_pre (bs : list (list input)) : st :=
+  let first := match bs with [] => [] | b :: _ => b end in
+  let new := mk_futures 0 first in
+  {| next := length first; tasks := new; pending := map fst new; backups := [];
+     starts := map fst new; ends := []; superseded := []; cancelled := []; completed := [];
+     batches := tl bs; yielded := [];
+     submitted := map (fun fi => (fst fi, (snd fi, false))) (rev new); stat := Running |}.
+
+Lemma pre_inv : forall bs, (forall l, In l bs -> l <> []) -> concat bs = ins ->
+  Inv (s_pre bs) [] /\ (pending (s_pre bs) = [] -> batches (s_pre bs) = []).
+Proof.
+  intros bs Hne Hc. destruct bs as [|first rest].
+  - split; [|reflexivity]. split; [apply (safe_empty [])|intros _; apply (struct_empty []); auto].
+  - assert (E : s_pre (first :: rest) = s_refill (s_empty (first :: rest)) first rest).
+    { unfold s_pre, s_refill, s_empty, subnew; prj. cbn [tl]. rewrite !app_nil_r. reflexivity. }
+    rewrite E. split.
+    + split.
+      * apply safe_refill; auto using safe_empty, struct_empty.
+      * intros _. apply struct_refill; auto using safe_empty, struct_empty.
+    + unfold s_refill, s_empty; prj. rewrite app_nil_r, mk_futures_fst. intros Hp.
+      assert (first <> []) by (apply Hne; left; reflexivity).
+      destruct first; [congruence|discriminate].
+Qed.
+
+Lemma list_nil_dec : forall (l : list input), l = [] \/ l <> [].
+Proof. intros l. destruct l; [left; reflexivity|right; discriminate]. Qed.
+
+Lemma init_top : Top (init c ins).
+Proof.
+  assert (Hpre : exists bs, init c ins = finish (s_pre bs) /\ Inv (s_pre bs) [] /\
+            (pending (s_pre bs) = [] -> batches (s_pre bs) = []) /\
+            (batch c = None -> batches (s_pre bs) = [])).
+  { unfold init. destruct (batch c) as [b|] eqn:Eb.
+    - exists (batched ins b). split; [reflexivity|].
+      assert (Hb1 : 1 <= b) by (destruct b; [exfalso; apply Hb; auto|lia]).
+      destruct (pre_inv (batched ins b)) as [P1' P2'].
+      + intros l Hl. eapply batched_fuel_ne; eauto.
+      + apply batched_fuel_concat; auto.
+      + split; [exact P1'|]. split; [exact P2'|discriminate].
+    - assert (Hi : ins = [] \/ ins <> []) by (apply list_nil_dec).
+      destruct Hi as [Hi|Hi].
+      + exists []. split; [rewrite Hi; reflexivity|]. destruct (pre_inv []) as [P1' P2']; auto.
+      + exists [ins]. split; [reflexivity|]. destruct (pre_inv [ins]) as [P1' P2'].
+        * intros l [Hl|[]]. subst l. exact Hi.
+        * cbn. rewrite app_nil_r. reflexivity.
+        * split; [exact P1'|]. split; [exact P2'|reflexivity]. }
+  destruct Hpre as [bs [E [I1 [I2 I3]]]]. rewrite E.
+  destruct (finish_inv _ I1 (fun _ => I2)) as [I4 I5].
+  split; [exact I4|]. split; [exact I5|].
+  intros En. rewrite (proj2 (frame_finish _)). auto.
+Qed.
+
+Lemma run_top : forall script, Top (run c ins script).
+Proof.
+  intros script. unfold run. generalize init_top. generalize (init c ins).
+  induction script as [|w script IH]; cbn [fold_left]; intros s HT; [exact HT|].
+  apply IH. apply step_top. exact HT.
+Qed.
+
+End Inv.
+
+(* ------------------------------------------------------------------ *)
+(* the theorems                                                         *)
+(* ------------------------------------------------------------------ *)
+
+Lemma run_safe : forall c ins script, repaired c -> batch_ok c -> NoDup ins ->
+  Safe ins (run c ins script).
+Proof. intros c ins script H1 H2 H3. destruct (run_top c ins H1 H2 H3 script) as [[HS _] _]. exact HS. Qed.
+
+Theorem no_double_delivery : forall c ins script, repaired c -> batch_ok c -> NoDup ins ->
+  NoDup (map snd (yielded (run c ins script))).
+Proof. intros. eapply Y_nodup. eapply run_safe; eauto. Qed.
+
+Theorem delivered_succeeded : forall c ins script, repaired c -> batch_ok c -> NoDup ins ->
+  forall t i, In (t, i) (yielded (run c ins script)) ->
+    lookup t (completed (run c ins script)) = Some true /\
+    lookup t (tasks (run c ins script)) = Some i /\ In i ins.
+Proof.
+  intros c ins script H1 H2 H3 t i Hy. pose proof (run_safe c ins script H1 H2 H3) as HS.
+  destruct (Y_ok _ _ HS _ _ Hy) as [Hy1 Hy2]. split; [exact Hy1|]. split; [exact Hy2|].
+  destruct (S_task' _ _ HS _ _ Hy2) as [b Hb]. eapply S_ins; eauto.
+Qed.
+
+Definition subp (i : input) (b : bool) (x : fid * (input * bool)) : bool :=
+  Nat.eqb (fst (snd x)) i && Bool.eqb (snd (snd x)) b.
+
+Lemma subp_true : forall i b x, subp i b x = true <-> snd x = (i, b).
+Proof.
+  intros i b [f [i' b']]. unfold subp. cbn. rewrite Bool.andb_true_iff, Nat.eqb_eq, Bool.eqb_true_iff.
+  split; [intros [? ?]; subst; reflexivity|intros E; inversion E; auto].
+Qed.
+
+Lemma filter_none : forall A (p : A -> bool) l, (forall x, In x l -> p x = false) -> filter p l = [].
+Proof.
+  induction l as [|a l IH]; cbn; intros Hf; [reflexivity|].
+  rewrite (Hf a) by auto. apply IH. intros x Hx. apply Hf. auto.
+Qed.
+
+Lemma count_le1 : forall i b (l : list (fid * (input * bool))), NoDup (map snd l) ->
+  length (filter (subp i b) l) <= 1.
+Proof.
+  induction l as [|x l IH]; cbn; intros Hn; [lia|].
+  inversion Hn as [|? ? Hx Hn']; subst. destruct (subp i b x) eqn:E; [|auto].
+  apply subp_true in E. rewrite filter_none; [cbn; lia|].
+  intros y Hy. destruct (subp i b y) eqn:Ey; [|reflexivity].
+  apply subp_true in Ey. exfalso. apply Hx. rewrite E, <- Ey. apply in_map. exact Hy.
+Qed.
+
+Lemma count_ge1 : forall A (p : A -> bool) l x, In x l -> p x = true -> 1 <= length (filter p l).
+Proof.
+  intros A p l x Hin Hp. assert (Hf : In x (filter p l)) by (apply filter_In; auto).
+  destruct (filter p l); [destruct Hf|cbn; lia].
+Qed.
+
+Theorem submissions_bounded : forall c ins script, repaired c -> batch_ok c -> NoDup ins ->
+  forall i, nsub (run c ins script) i false <= 1 /\
+            nsub (run c ins script) i true <= nsub (run c ins script) i false.
+Proof.
+  intros c ins script H1 H2 H3 i. pose proof (run_safe c ins script H1 H2 H3) as HS.
+  set (s := run c ins script) in *.
+  change (length (filter (subp i false) (submitted s)) <= 1 /\
+          length (filter (subp i true) (submitted s)) <= length (filter (subp i false) (submitted s))).
+  pose proof (count_le1 i false _ (S_snd _ _ HS)) as L1.
+  pose proof (count_le1 i true _ (S_snd _ _ HS)) as L2.
+  split; [exact L1|].
+  destruct (filter (subp i true) (submitted s)) as [|x l] eqn:E; [cbn; lia|].
+  assert (Hx : In x (filter (subp i true) (submitted s))) by (rewrite E; left; reflexivity).
+  apply filter_In in Hx. destruct Hx as [Hx1 Hx2]. apply subp_true in Hx2.
+  destruct x as [f [i' b']]. cbn in Hx2. inversion Hx2; subst.
+  destruct (S_bk _ _ HS _ _ Hx1) as [t Ht].
+  assert (1 <= length (filter (subp i false) (submitted s))).
+  { eapply count_ge1; eauto. apply subp_true. reflexivity. }
+  cbn [length] in *. lia.
+Qed.
+
+Theorem submissions_real_inputs : forall c ins script, repaired c -> batch_ok c -> NoDup ins ->
+  forall f i b, In (f, (i, b)) (submitted (run c ins script)) -> In i ins.
+Proof. intros c ins script H1 H2 H3 f i b Hin. eapply S_ins; eauto. eapply run_safe; eauto. Qed.
+
+Theorem never_crashes : forall c ins script, repaired c -> batch_ok c -> NoDup ins ->
+  stat (run c ins script) <> Crashed.
+Proof. intros. eapply St_crash. eapply run_safe; eauto. Qed.
+
+Theorem raise_is_genuine : forall c ins script, repaired c -> batch_ok c -> NoDup ins ->
+  forall t, stat (run c ins script) = Raised t ->
+  exists i, lookup t (tasks (run c ins script)) = Some i /\
+    lookup t (completed (run c ins script)) = Some false /\
+    forall f b, In (f, (i, b)) (submitted (run c ins script)) ->
+      lookup f (completed (run c ins script)) = Some false.
+Proof.
+  intros c ins script H1 H2 H3 t Ht. pose proof (run_safe c ins script H1 H2 H3) as HS.
+  exact (St_raise _ _ HS t Ht).
+Qed.
+
+Theorem done_exactly_once : forall c ins script, repaired c -> batch_ok c -> NoDup ins ->
+  stat (run c ins script) = Done -> Permutation (map snd (yielded (run c ins script))) ins.
+Proof.
+  intros c ins script H1 H2 H3 Hd. pose proof (run_safe c ins script H1 H2 H3) as HS.
+  apply NoDup_Permutation; [apply (Y_nodup _ _ HS)|exact H3|].
+  intros i. split.
+  - intros Hi. apply in_map_iff in Hi. destruct Hi as [[t i'] [E Hy]]. cbn in E. subst i'.
+    eapply delivered_succeeded; eauto.
+  - apply (St_done _ _ HS Hd).
+Qed.
+
+Theorem futures_bounded : forall c ins script, repaired c -> batch_ok c -> NoDup ins ->
+  next (run c ins script) <= 2 * length ins.
+Proof.
+  intros c ins script H1 H2 H3. pose proof (run_safe c ins script H1 H2 H3) as HS.
+  set (s := run c ins script) in *.
+  assert (E : next s = length (map snd (submitted s))).
+  { rewrite map_length, <- (map_length fst), (S_fst _ _ HS), rev_length, seq_length. reflexivity. }
+  rewrite E.
+  assert (L : length (map snd (submitted s)) <= length (list_prod ins [false; true])).
+  { apply NoDup_incl_length; [apply (S_snd _ _ HS)|].
+    intros [i b] Hin. apply in_map_iff in Hin. destruct Hin as [[f [i' b']] [E' Hin]].
+    cbn in E'. inversion E'; subst. apply in_prod; [eapply S_ins; eauto|].
+    destruct b; cbn; auto. }
+  rewrite prod_length in L. cbn [length] in L. lia.
+Qed.
+
+Theorem completed_bounded : forall c ins script, repaired c -> batch_ok c -> NoDup ins ->
+  NoDup (map fst (completed (run c ins script))) /\
+  length (completed (run c ins script)) <= next (run c ins script).
+Proof.
+  intros c ins script H1 H2 H3. pose proof (run_safe c ins script H1 H2 H3) as HS.
+  set (s := run c ins script) in *. split; [apply (C_nodup _ _ HS)|].
+  rewrite <- (map_length fst), <- (seq_length (next s) 0).
+  apply NoDup_incl_length; [apply (C_nodup _ _ HS)|].
+  intros f Hf. apply in_seq. apply (C_lt _ _ HS) in Hf. lia.
+Qed.
+
+Theorem running_has_pending : forall c ins script, repaired c -> batch_ok c -> NoDup ins ->
+  stat (run c ins script) = Running -> pending (run c ins script) <> [].
+Proof. intros c ins script H1 H2 H3. destruct (run_top c ins H1 H2 H3 script) as [_ [Hp _]]. exact Hp. Qed.
+
+Theorem wake_progress : forall c ins script, repaired c -> batch_ok c -> NoDup ins ->
+  forall w, stat (run c ins script) = Running ->
+    valid_fin (pending (run c ins script)) [] (fin w) <> [] ->
+    length (completed (run c ins script)) < length (completed (step c (run c ins script) w)).
+Proof.
+  intros c ins script _ _ _ w Hrun Hv.
+  rewrite (proj1 (frame_step c _ w Hrun)), app_length.
+  destruct (valid_fin (pending (run c ins script)) [] (fin w)); [congruence|cbn; lia].
+Qed.
+
+Theorem terminal_absorbing : forall c ins script, repaired c -> batch_ok c -> NoDup ins ->
+  forall w, stat (run c ins script) <> Running -> step c (run c ins script) w = run c ins script.
+Proof. intros c ins script _ _ _ w Hs. apply step_frozen. exact Hs. Qed.
